@@ -321,7 +321,7 @@ func readFont(s *fontSpec, data []byte) (*cff.Font, error) {
 	var err error
 	var pn *guard.Panic
 	guard.Watch("c13-read", []byte(s.JSON()), guard.HangLimit(len(data)), func() {
-		pn = guard.Try(func() { g, err = cff.Read(bytes.NewReader(data)) })
+		pn = guard.Try(func() { g, err = cff.Read(guard.Source(data)) })
 	})
 	if pn != nil {
 		return nil, fmt.Errorf("cff.Read: %s", pn)
